@@ -5,14 +5,16 @@
 set -u
 PATCH=$(readlink -f "$1"); shift
 PROPS=${@:-C01 C02 C03 C04 C05 C06 C07 C08 C09 C10 C11 C12 C13 C14 C15 C16 C17}
-cd /repo || exit 2
-if ! git diff --quiet; then echo "/repo has uncommitted changes"; exit 2; fi
+REPO=${BMSA_REPO:-/repo}; export BMSA_REPO=$REPO
+VERIF=$(cd "$(dirname "$0")/.." && pwd)
+cd $REPO || exit 2
+if ! git diff --quiet; then echo "$REPO has uncommitted changes"; exit 2; fi
 git apply "$PATCH" || { echo "patch does not apply"; exit 2; }
 SCR=$(mktemp -d /tmp/bmsa-mut.XXXX)
-cd /verif
+cd $VERIF
 python3 bmsa/facts.py default all-features >/dev/null 2>$SCR/extract.err || { echo "EXTRACT FAILED"; tail -5 $SCR/extract.err; }
 echo $PROPS | tr ' ' '\n' | BMSA_EVIDENCE_DIR=$SCR xargs -P 8 -I{} sh -c './bin/check {} --tier quick > '$SCR'/{}.out 2>&1; echo "{} rc=$?"' | sort | tr '\n' ' '
 echo
 for p in $PROPS; do grep -A1 "^VIOLATION" $SCR/$p.out | grep "rule=" | sed "s/^/  $p:/" | cut -c1-260 | head -4; done
-git -C /repo checkout -- . && git -C /repo clean -fdq --exclude=target
+git -C $REPO checkout -- . && git -C $REPO clean -fdq --exclude=target
 rm -rf $SCR
